@@ -5,7 +5,7 @@ From ApolloVerif Require Import Base.Chars Lex.Item Parse.Outcome Parse.Builder 
 
 Inductive pw_entry := PW_doc | PW_selset | PW_type.
 
-(* serialised ptree: open p_node / leaf / close *)
+(* serialised tree: open node / leaf / close *)
 Inductive pw_tok := PW_open (k : skind) | PW_leaf (k : skind) (text : str) | PW_close.
 
 Fixpoint pw_flatten (t : ptree) : list pw_tok :=
@@ -18,14 +18,14 @@ Fixpoint pw_flatten (t : ptree) : list pw_tok :=
   end.
 
 Record pw_obs := {
-  pw_status : N;                       (* 0 = returned, 1 = p_panic, 2 = out of fuel *)
+  pw_status : N;                       (* 0 = returned, 1 = panic, 2 = out of fuel *)
   pw_leaves : list (skind * str);
   pw_range_end : N;                    (* the root's text range is 0 .. pw_range_end *)
   pw_errors : list (bool * N);         (* (is_limit, index) in order *)
   pw_rec_high : N;
   pw_tok_high : N;
   pw_struct : list pw_tok;
-  pw_dropped : N                       (* ghost: bytes of text dropped by g_ty::g_parse (D3) *)
+  pw_dropped : N                       (* ghost: bytes of text dropped by ty::parse (D3) *)
 }.
 
 Definition pw_fail (st : N) : pw_obs :=
